@@ -450,10 +450,14 @@ def context_defects(expr, guards):
     -> list of (kind, node, message, root dump)   kind: 'div' | 'vanish' """
     out = []
 
-    def check_div(d, ctx, node):
+    def check_div(d, ctx, node, unsan=False):
         for r in zero_root_exprs(d):
             key = dump(r)
             g = guards.get(key)
+            if unsan and g is not None and ctx is not None and implies(ctx, g):
+                # selected by MULTIPLYING with the mask: the quotient is evaluated for every element, and (False mask) * (0 / 0) = NaN, not 0
+                out.append(('nansan', node, 'the quotient by `%s` is selected by multiplying with its mask, not by gathering under it, and does not pass through '
+                            'nan_to_num first: where the guard fails the unselected 0/0 (NaN) or x/0 (Inf) survives the multiplication by False' % src(strip(d))[:50], key, ctx))
             if g is None:
                 if is_norm_root(r):
                     out.append(('div', node, 'division by `%s`, which is exactly zero at the identity / zero vector, is not selected by any '
@@ -471,9 +475,15 @@ def context_defects(expr, guards):
                 out.append(('vanish', node, 'the branch selected where `%s` is (near) zero is multiplied by a factor that vanishes exactly at '
                             'zero (sign(0) = 0): the branch value collapses at the very point it was written for' % _short(key), key, ctx))
 
-    def walk(e, ctx):
+    def walk(e, ctx, unsan=False, outer=False):
         if isinstance(e, ast.Call):
             d = dotted(e.func)
+            if d in TRANSPARENT_FUNCS or (isinstance(e.func, ast.Attribute) and e.func.attr == 'nan_to_num'):
+                # everything below is sanitised AFTER it was computed: nan_to_num(mask * q) and mask * nan_to_num(q) are both free of NaN
+                for c in ast.iter_child_nodes(e):
+                    if isinstance(c, ast.expr):
+                        walk(c, ctx, False, True)
+                return
             if d == 'torch.where' and len(e.args) == 3:
                 f = formula(e.args[0])
                 walk(e.args[0], ctx)
@@ -494,9 +504,9 @@ def context_defects(expr, guards):
                 walk(e.args[2], c2)
                 return
             if d in ('torch.div', 'torch.true_divide') and len(e.args) == 2:
-                check_div(e.args[1], ctx, e)
+                check_div(e.args[1], ctx, e, unsan)
             if isinstance(e.func, ast.Attribute) and e.func.attr in ('reciprocal', 'rsqrt') and not (d or '').startswith('torch.'):
-                check_div(e.func.value, ctx, e)
+                check_div(e.func.value, ctx, e, unsan)
         if isinstance(e, ast.BinOp) and isinstance(e.op, (ast.Mult, ast.Div)):
             fs = _factors(e)
             mfs = [formula(x) for x in fs if not isinstance(x, tuple) and formula(x) is not None]
@@ -511,28 +521,45 @@ def context_defects(expr, guards):
                         prod = x if prod is None else ast.BinOp(prod, ast.Mult(), x)
                 if prod is not None:
                     check_vanish(prod, c2, e)
+            u2 = (unsan or bool(mfs)) and not outer
             for x in rest:
                 if isinstance(x, tuple):
-                    check_div(x[1], c2, e)
-                    walk(x[1], c2)
+                    check_div(x[1], c2, e, u2)
+                    walk(x[1], c2, u2, outer)
                 else:
-                    walk(x, c2)
+                    walk(x, c2, u2, outer)
             for x in fs:
                 if not isinstance(x, tuple) and formula(x) is not None:
                     walk_atoms(x, ctx)
             return
+        if isinstance(e, ast.BinOp) and isinstance(e.op, (ast.Add, ast.Sub)) and outer:
+            # nan_to_num applied to a SUM repairs a NaN of a masked term only if every term of the sum is such a masked coefficient: an unmasked term
+            # (0.5 * Tau + coef * (...)) is wiped out together with the NaN it is added to
+            terms = []
+            def flat(x):
+                if isinstance(x, ast.BinOp) and isinstance(x.op, (ast.Add, ast.Sub)):
+                    flat(x.left); flat(x.right)
+                else:
+                    terms.append(x)
+            flat(e)
+            def masked(t):
+                return any(not isinstance(x, tuple) and formula(x) is not None for x in _factors(t)) and len([x for x in _factors(t) if not isinstance(x, tuple) and formula(x) is None]) <= 1
+            keep = all(_is_zero(t) or masked(t) for t in terms)
+            for t in terms:
+                walk(t, ctx, unsan, keep)
+            return
         if isinstance(e, ast.BinOp) and isinstance(e.op, ast.Pow):
             k = e.right
             if isinstance(k, ast.UnaryOp) and isinstance(k.op, ast.USub) and isinstance(k.operand, ast.Constant):
-                check_div(e.left, ctx, e)
+                check_div(e.left, ctx, e, unsan)
         if isinstance(e, ast.Subscript):
             f = formula(e.slice)
             if f is not None:
-                walk(e.value, _and(ctx, f))
+                walk(e.value, _and(ctx, f), False)        # a gather evaluates its operand on the selected elements only
                 return
         for c in ast.iter_child_nodes(e):
             if isinstance(c, ast.expr):
-                walk(c, ctx)
+                walk(c, ctx, unsan, outer)
 
     def walk_atoms(m, ctx):
         # comparison operands are evaluated everywhere (they define the masks); they contain no guarded divisions by construction
